@@ -211,3 +211,14 @@ Fixpoint posts (t : list aevent) : list (nat * nat) :=
 Fixpoint delivs (t : list aevent) : list (nat * nat) :=
   match t with [] => [] | VDeliver p i :: r => (p, i) :: delivs r | _ :: r => delivs r end.
 Definition of_prod (p : nat) (l : list (nat * nat)) : list (nat * nat) := filter (fun x => Nat.eqb (fst x) p) l.
+
+(* ---- which thread executes a step ------------------------------------------------------------------
+   moveToOwnThread() may be called before the QCoreApplication exists ([app] = false) or after it ([app] = true).  The worker
+   object (the receiver of the posted events) executes ATake/ADone on the thread it has affinity to; producer actions run on
+   the calling thread.  [wmove] = under which condition moveToOwnThread() moves the worker to the own thread (translated). *)
+Inductive tid := TCaller | TOwn.
+Inductive wmove := WMAlways | WMIfApp | WMNever.
+Definition worker_affinity (w : wmove) (app : bool) : tid :=
+  match w with WMAlways => TOwn | WMIfApp => if app then TOwn else TCaller | WMNever => TCaller end.
+Definition exec_thread (w : wmove) (app : bool) (a : action) : tid :=
+  if is_producer_action a then TCaller else worker_affinity w app.
